@@ -61,3 +61,18 @@ Print Assumptions C08_outside_window_untouched.
 (* default settings read from the source: --backup onfail, --backup-count 100 *)
 Example C08_defaults : default_backup_onfail = OnFail /\ default_backup_count = 100%nat.
 Proof. split; reflexivity. Qed.
+
+(* ---------- what the backup files hold ---------- *)
+From RQ Require Import ViewSim UndoChain.
+
+(* The backup phase walks the stack newest first and writes, for each status, the file that ModifiedFiles::rollback
+   hands out (C08_backup_is_rolled_back_file).  Over any history of applications that walk is [undo_all]: it never
+   fails, each file handed out is - lines, existence, effective mode - the file as it was loaded for that file patch,
+   i.e. its state immediately before it, and when the walk has passed a patch every name is what it was before
+   that patch (hsim pairs the history with the files handed out). *)
+Theorem C08_backups_hold_the_state_before :
+  forall dm fs, disk_ok fs -> forall st h st2, steps fs st h st2 ->
+    exists ov_end l, undo_all (a_files st2) (List.map fst h) = ROk (ov_end, l) /\
+                     wsim allK dm fs ov_end fs (a_files st) /\ hsim dm h l.
+Proof. exact backups_hold_the_state_before. Qed.
+Print Assumptions C08_backups_hold_the_state_before.
